@@ -172,6 +172,8 @@ impl Handler {
     }
 
     async fn serve(&mut self, store: &Store, options: ReadOptions) {
+        #[cfg(feature = "verif")]
+        crate::verif::sync_point("handler.serve.before_read", Some(self.id));
         let mut recver = store.read(options).await;
 
         while let Some(frame) = recver.recv().await {
@@ -237,6 +239,8 @@ impl Handler {
             });
         }
 
+        #[cfg(feature = "verif")]
+        crate::verif::sync_point("handler.spawn.before_announce", Some(self.id));
         let _ = store.append(
             Frame::builder(format!("{}.registered", &self.topic), self.context_id)
                 .meta(serde_json::json!({
